@@ -4,7 +4,7 @@ One operation line is one whole history of API calls on a `canopen.Network` atta
 simulated bus whose `send_periodic` returns *recording* cyclic tasks (snapshot of id, payload,
 remote flag and period; `stop()` clears a flag), in two flavours: with and without `modify_data`.
 
-    m=<0|1> sc=<d|cob> {L=<id>,<0x1017 default|n>} {R=<id>} {P=<node>,<key>,<cob|n>,<nvars>} -- op …
+    m=<0|1> [t=<0|1>] sc=<d|cob> {L=<id>,<0x1017 default|n>} {R=<id>} {P=<node>,<key>,<cob|n>,<nvars>} -- op …
 
     ss:<µs|n> sx                      network.sync.start(period) / stop()      (`n`: start() without argument)
     sp:<µs|n>                         network.sync.period = µs/1e6 | None      (the attribute start() falls back on)
@@ -23,6 +23,13 @@ remote flag and period; `stop()` clears a flag), in two flavours: with and witho
     nc:<hex>                          network.notify(0, data)  (NMT command frame)
     gs:<n>,<µs> gx:<n>                NmtMaster.start_node_guarding / stop_node_guarding (n = 0: network.nmt)
     dc                                network.disconnect()
+    wn / we                           `with network: pass` / `with network: raise RigError` (caught outside the block)
+    xn / xe                           network.__exit__(None, None, None) / network.__exit__(RigError, RigError(), None)
+    cn                                network.connect()  (python-can's Bus/Notifier replaced by the simulated ones)
+
+`t=1`: the simulated bus stops the cyclic tasks created through it when it is shut down (like python-can's
+`BusABC.shutdown`) and a task created through a shut-down bus never transmits; `t=0` (default): tasks stop only
+through their own `stop()`.
 
 Output per call: `ok|err;<live tasks>;<api>` joined by `|`.
 """
@@ -51,6 +58,10 @@ THEOREMS = [
     "Canopen.C17.stopped_means_none",
     "Canopen.C17.heartbeat_zero_stops",
     "Canopen.C17.disconnect_stops_pdo",
+    "Canopen.C17.exit_is_disconnect",
+    "Canopen.C17.disconnect_stops_all",
+    "Canopen.C17.connect_connects",
+    "Canopen.C17.restart_after_reconnect",
     "Canopen.C17.heartbeat_payload_is_byte",
     "Canopen.C17.unrepaired_sync_start_leaks",
     "Canopen.C17.raising_state_change_breaks_current",
@@ -72,6 +83,9 @@ FINGERPRINT = [
     "canopen.nmt:NmtMaster.stop_node_guarding",
     "canopen.network:Network.send_periodic",
     "canopen.network:Network.disconnect",
+    "canopen.network:Network.connect",
+    "canopen.network:Network.__enter__",
+    "canopen.network:Network.__exit__",
     "canopen.network:PeriodicMessageTask",
     "canopen.node.local:LocalNode.set_data",
 ]
@@ -79,6 +93,11 @@ TRUSTED = [
     "python-can's cyclic tasks are replaced by recording tasks that snapshot id/payload/remote/period "
     "when created (and when modify_data is called) and stop transmitting exactly when stop() is "
     "called; real schedulers, threads and bus.shutdown() are not exercised",
+    "two flavours of the simulated bus at shutdown(): t=0 leaves its cyclic tasks alone (everything canopen does not "
+    "stop itself stays visible), t=1 stops the tasks created through it and never transmits for a task created "
+    "after shutdown (python-can's BusABC.shutdown); the Lean model describes t=0 — for t=1 histories the return "
+    "flags and the API state are compared with the model and what is live on the bus is judged by the oracle only; "
+    "connect() runs with can.Bus / can.Notifier replaced by the simulated ones for the duration of the call",
     "ownership of a bus task (which producer created it) is a ghost field in the model; the oracle "
     "attributes tasks to producers by (CAN id, remote flag), which the generator keeps distinct",
 ]
@@ -100,10 +119,13 @@ ASSUMPTIONS = [
 ]
 RULE = ("whole call histories over SYNC, PDO maps of local and remote nodes, heartbeat (direct calls, "
         "0x1017 writes locally and by SDO frame, NMT state changes by send_command / state setter / NMT "
-        "frame) and node guarding, on both bus flavours, including start() without a period after the period "
+        "frame) and node guarding, on both bus flavours, every way of disconnecting (disconnect(), `with network:` "
+        "left normally and through an exception, __exit__ called directly, twice) and connect() again, on buses that "
+        "do / do not stop their tasks at shutdown(), including start() without a period after the period "
         "was given by an earlier start, by assignment to the `period` attribute or measured from received "
         "frames; exhaustive sequences of length <= 2 (quick) / "
-        "<= 3 (thorough) over a 36-call alphabet on a small configuration, every give / 0..2 intermediate calls / "
+        "<= 3 (thorough) over a 38-call alphabet on a small configuration, every running-set / way of disconnecting / "
+        "0..2 calls afterwards history on the four bus variants, every give / 0..2 intermediate calls / "
         "restart-without-period history of SYNC and of a PDO map, plus seeded random histories "
         "(length 1..40 / 1..120) over random configurations with periods in {1 us .. 1 h}, heartbeat "
         "times in {0, 1, .., 65535}, payload lengths 0..8; non-trivial = at least one cyclic task was "
@@ -147,12 +169,37 @@ class ModTask(RecTask):
         self.data = bytes(msg.data)
 
 
+class Recorder:
+    """what all bus objects of one history share: the cyclic tasks in creation order"""
+
+    def __init__(self):
+        self.tasks = []
+        self.overlaps = 0
+
+
+class FakeNotifier:
+    exception = None
+
+    def __init__(self, bus, listeners, timeout=1.0):
+        self.bus, self.stopped = bus, False
+
+    def stop(self, timeout=5.0):
+        self.stopped = True
+
+
+class RigError(Exception):
+    """raised inside `with network:` by the rig, caught outside"""
+
+
 class FakeBus:
     channel_info = "simulated"
 
-    def __init__(self, modify):
+    def __init__(self, modify, rec=None, tied=False):
         self.modify = modify
-        self.tasks = []
+        self.rec = rec if rec is not None else Recorder()
+        self.tasks = self.rec.tasks
+        self.tied = tied
+        self.own = []
         self.sent = []
         self.down = False
 
@@ -163,25 +210,33 @@ class FakeBus:
         # "at every moment at most one task per producer": a producer that starts its replacement while its
         # earlier task (same message object) is still live has two tasks on the bus at this moment
         if any(t.live and t.msg_obj is msg for t in self.tasks):
-            self.overlaps = getattr(self, "overlaps", 0) + 1
+            self.rec.overlaps += 1
         t = (ModTask if self.modify else RecTask)(len(self.tasks), msg, period)
+        if self.tied and self.down:
+            t.live = False            # a shut-down bus transmits nothing
         self.tasks.append(t)
+        self.own.append(t)
         return t
 
     def shutdown(self):
-        # deliberately does not stop the tasks: what is observed is what canopen itself stops
+        # t=0: deliberately does not stop the tasks: what is observed is what canopen itself stops
         self.down = True
+        if self.tied:
+            for t in self.own:
+                t.live = False
 
 
 # ---- configuration ---------------------------------------------------------------------------
 def parse(op):
     toks = op.split(" ")
-    cfg = {"m": 0, "sc": None, "L": [], "R": [], "P": []}
+    cfg = {"m": 0, "t": 0, "sc": None, "L": [], "R": [], "P": []}
     i = 0
     while i < len(toks) and toks[i] != "--":
         k, _, v = toks[i].partition("=")
         if k == "m":
             cfg["m"] = int(v)
+        elif k == "t":
+            cfg["t"] = int(v)
         elif k == "sc":
             cfg["sc"] = None if v == "d" else int(v)
         elif k == "L":
@@ -230,7 +285,8 @@ def make_od(hb_default, keys):
 class Env:
     def __init__(self, cfg):
         self.cfg = cfg
-        self.bus = FakeBus(bool(cfg["m"]))
+        self.rec = Recorder()
+        self.bus = FakeBus(bool(cfg["m"]), self.rec, bool(cfg["t"]))
         self.clock = 0                # µs; time stamps of received frames (only moves forward)
         self.net = canopen.Network(bus=self.bus)
         if cfg["sc"] is not None:
@@ -341,6 +397,32 @@ def apply_op(env, tok):
         env.master(int(f[0])).stop_node_guarding()
     elif kind == "dc":
         net.disconnect()
+    elif kind == "wn":
+        with net:
+            pass
+    elif kind == "we":
+        try:
+            with net:
+                raise RigError()
+        except RigError:
+            pass
+        else:
+            raise RuntimeError("the exception raised inside the with block did not come out of it")
+    elif kind == "xn":
+        net.__exit__(None, None, None)
+    elif kind == "xe":
+        e = RigError()
+        if net.__exit__(RigError, e, None):
+            raise RuntimeError("__exit__ asked for the exception to be swallowed")
+    elif kind == "cn":
+        import can
+        old = can.Bus, can.Notifier
+        can.Bus = lambda *a, **kw: FakeBus(bool(env.cfg["m"]), env.rec, bool(env.cfg["t"]))
+        can.Notifier = FakeNotifier
+        try:
+            net.connect()
+        finally:
+            can.Bus, can.Notifier = old
     else:
         raise ValueError(f"bad op {tok}")
 
@@ -356,7 +438,7 @@ def us(p):
 
 def show_tasks(env):
     out = []
-    for t in env.bus.tasks:
+    for t in env.rec.tasks:
         if t.live:
             out.append(f"{t.idx}:{t.arb}{'x' if t.ext else ''}/{hx(t.data)}/{us(t.period)}/{int(t.remote)}")
     return ",".join(out) if out else "-"
@@ -401,8 +483,32 @@ def has_halves(op):
     return re.search(r"P=\d+,\d+,\w+,\d+h", op) is not None
 
 
+def is_tied(op):
+    return "t=1" in op.split(" -- ")[0].split(" ")
+
+
+def blank_tasks(out):
+    """t=1: which tasks are live on the bus is judged by the oracle only (the model describes the bus that leaves
+    its tasks alone at shutdown); return flags and API state are compared as always"""
+    if out in ("-", "", "bad-op") or out.startswith("HARNESS-RAISED"):
+        return out
+    res = []
+    for part in out.split("|"):
+        flag, _, api = part.split(";")
+        res.append(f"{flag};*;{api}")
+    return "|".join(res)
+
+
+def canon_both(op, out):
+    if has_halves(op):
+        out = canon_serials(out)
+    if is_tied(op):
+        out = blank_tasks(out)
+    return out
+
+
 def canon_model(op, out):
-    return canon_serials(out) if has_halves(op) else out
+    return canon_both(op, out)
 
 
 def model_skips(op):
@@ -423,7 +529,7 @@ def model_skips(op):
 
 
 def canon_impl(op, out):
-    return canon_serials(out) if has_halves(op) else out
+    return canon_both(op, out)
 
 
 def run_impl(op):
@@ -440,8 +546,8 @@ def run_impl(op):
             ok = False
         except Exception:
             ok = False
-        ovl = getattr(env.bus, "overlaps", 0)
-        env.bus.overlaps = 0
+        ovl = env.rec.overlaps
+        env.rec.overlaps = 0
         outs.append(f"{'ok' if ok else 'err'}{'!overlap' if ovl else ''};{show_tasks(env)};{show_api(env)}")
     return "|".join(outs) if outs else "-"
 
@@ -477,6 +583,7 @@ def parse_out(out):
     return steps
 
 
+DISCONNECTS = ("dc", "wn", "we", "xn", "xe")   # disconnect() and every way of leaving the network as a context manager
 SYNC_DEFAULT_COB = 0x80     # CiA 301 pre-defined connection set (the oracle's own constant)
 
 
@@ -654,8 +761,17 @@ def oracle(op, out):
                 want_period[target] = f[1]
             if kind == "gs" and not disconnected and (int(f[0]) == 0 or int(f[0]) in cfg["R"]):
                 must_ok = f"start_node_guarding({f[1]} us) on a connected network"
-        elif kind == "dc":
+        elif kind in DISCONNECTS:
+            if cfg["t"] and not disconnected:
+                # a bus that stops its own tasks at shutdown silences every producer that ran on it; the property
+                # asks that of the PDO maps only, the others are not held to anything until they are started again
+                for q in list(should):
+                    if q[0] != "pdo" and should[q] is True:
+                        should[q] = None
             disconnected = True
+        elif kind == "cn":
+            if ok:
+                disconnected = False
         if must_ok is not None and not ok:
             cl = "refused_restart" if (kind in ("ss", "ps") and (f[0] if kind == "ss" else f[2]) == "n") else "refused_start"
             return (f"{cl}/{target[0]}: {where} the call raised although {must_ok}; "
@@ -786,7 +902,7 @@ ALPHABET = [
     "ps:7,1,5000", "pu:7,1,09",
     "hs:5,100", "hs:5,0", "hx:5", "hw:5,250", "hw:5,0", "hd:5,300", "hd:5,0",
     "cm:5,128", "cm:5,1", "cm:5,129", "st:5,OPERATIONAL", "nc:0205", "nc:8100",
-    "gs:7,5000", "gs:7,6000", "gx:7", "dc",
+    "gs:7,5000", "gs:7,6000", "gx:7", "dc", "we", "cn",
 ]
 
 
@@ -796,7 +912,7 @@ def rand_cfg(rng):
     used = {0x80 if sc == "d" else int(sc)}
     ids = rng.sample(range(1, 128), 4)
     nl, nr = rng.choice([(1, 1), (1, 0), (0, 1), (2, 1), (1, 2), (2, 2), (0, 0)])
-    toks = [f"m={m}", f"sc={sc}"]
+    toks = [f"m={m}"] + (["t=1"] if rng.random() < 0.3 else []) + [f"sc={sc}"]
     nodes = []
     for n in ids[:nl]:
         d = rng.choice(["n", "0"] if rng.random() < 0.25 else [str(rng.choice(HB_TIMES)), str(rng.randrange(1, 65536))])
@@ -909,10 +1025,19 @@ def rand_history(rng, maxlen):
     n = rng.randrange(1, maxlen + 1)
     ops = [rand_op(rng, locs, rems, pdos) for _ in range(n)]
     r = rng.random()
-    if r < 0.35:
-        ops.append("dc")
-    elif r < 0.45:
-        ops.insert(rng.randrange(len(ops) + 1), "dc")
+    way = rng.choice(DISCONNECTS + ("dc", "we"))
+    if r < 0.3:
+        ops.append(way)
+    elif r < 0.5:
+        i = rng.randrange(len(ops) + 1)
+        ops.insert(i, way)
+        r2 = rng.random()
+        if r2 < 0.5:
+            ops.insert(rng.randrange(i + 1, len(ops) + 1), "cn")
+        if r2 < 0.25:
+            ops.insert(rng.randrange(i + 1, len(ops) + 1), rng.choice(DISCONNECTS))
+    elif r < 0.55:
+        ops.insert(rng.randrange(len(ops) + 1), "cn")
     return " ".join(toks + ["--"] + ops)
 
 
@@ -935,7 +1060,25 @@ def restart_histories():
                         yield f"m={m} {RESTART_CFG} " + " ".join(give + list(mid) + [again])
 
 
+# every way of disconnecting x what runs x up to two calls afterwards, on the four bus variants
+DISC_CFG = "sc=d L=5,100 R=7 P=5,101,389,2 P=7,1,519,1 --"
+DISC_BEFORE = ["ps:5,101,1000 ps:7,1,5000 ss:10000 hs:5,10 gs:7,100000", "ps:7,1,5000", "ps:5,101,1000 px:5,101 ps:7,1,700"]
+DISC_WAYS = [["dc"], ["wn"], ["we"], ["xn"], ["xe"], ["dc", "dc"], ["we", "we"], ["we", "dc"]]
+DISC_AFTER = ["pu:5,101,0708", "pv:7,1,0,9", "pr:7,1,50,0b", "ps:7,1,n", "ps:5,101,2000", "cn", "hu:5"]
+
+
+def disconnect_histories():
+    for m in (0, 1):
+        for t in (0, 1):
+            for i, before in enumerate(DISC_BEFORE):
+                for way in DISC_WAYS:
+                    for d in range(3 if i == 0 else 2):
+                        for after in itertools.product(DISC_AFTER, repeat=d):
+                            yield f"m={m} t={t} {DISC_CFG} {before} " + " ".join(way + list(after))
+
+
 def gen_ops(tier, rng):
+    yield from disconnect_histories()
     yield from restart_histories()
     depth = 2 if tier == "quick" else 3
     for m in (0, 1):
@@ -972,6 +1115,14 @@ CORPUS = [
     # disconnect stops the PDO tasks of all nodes and nothing else
     "m=0 sc=d L=5,100 R=7 P=5,101,389,2 P=5,1,517,1 P=7,1,519,1 P=7,102,903,8 -- "
     "ps:5,101,1000 ps:5,1,2000 ps:7,1,5000 ps:7,102,7000 ss:10000 hs:5,10 gs:7,100000 gs:0,50000 dc",
+    # every way a network gets disconnected: with-block left normally / through an exception, __exit__ called directly,
+    # twice, connect() again and starts afterwards; buses that leave their tasks alone / stop them at shutdown()
+    "m=0 t=0 sc=d L=7,100 R=4 P=4,1,516,2 P=7,101,772,2 -- ps:4,1,50000 ps:7,101,100000 we pu:4,1,0102 pr:7,101,10,0304",
+    "m=0 t=1 sc=d L=7,100 R=4 P=4,1,516,2 P=7,101,772,2 -- ps:4,1,50000 ps:7,101,100000 we pu:4,1,0102 pr:7,101,10,0304",
+    "m=1 t=0 sc=d L=7,100 R=4 P=4,1,516,2 P=7,101,772,2 -- ps:4,1,50000 ps:7,101,100000 ss:10000 hs:7,10 wn xe dc cn "
+    "ps:4,1,n ss:n hs:7,20 xn cn cn ps:7,101,n we",
+    "m=0 t=1 sc=d L=7,100 R=4 P=4,1,516,2 P=7,101,772,2 -- ps:4,1,50000 ps:7,101,100000 ss:10000 hs:7,10 gs:4,9000 xe "
+    "nc:0107 cn nc:0207 ps:4,1,n ss:n hs:7,20 gs:4,8000 dc dc",
     # a state change that raises after changing the state (outside live_is_current; modelled, compared)
     "m=0 sc=d L=5,n -- hs:5,100 cm:5,128",
     "m=0 sc=d L=5,100 -- hs:5,100 cm:5,1 dc cm:5,129",
@@ -997,7 +1148,9 @@ LEVEL_TEXT = ("Lean 4 theorems over every configuration and every call history (
               "after any history since the period was last given (start(v), assignment, measured from received "
               "frames) succeeds and runs exactly one task with that period and the current payload, and is "
               "refused leaving none running when no period was ever given; stop, heartbeat time 0 "
-              "and disconnect (all PDO maps of all nodes) leave none; model tied to the code by an exhaustive "
+              "and disconnect — by disconnect(), by leaving `with network:` normally or through an exception, by "
+              "__exit__ called directly — (all PDO maps of all nodes, handles cleared) leave none, and starts work "
+              "again after connect(); model tied to the code by an exhaustive "
               "short-history sweep plus seeded random histories compared call by call")
 LEVEL_NOTE = ("trusted: Lean kernel + propext/Classical.choice/Quot.sound; python-can's cyclic tasks are "
               "replaced by recording tasks (real schedulers/threads not exercised); live_is_current is "
